@@ -625,7 +625,7 @@ class World:
         then = {sid: {reg.style(sid, nc)} for sid in ids}      # every state the configuration showed since
         if len(self.held) >= 4:
             self.held.pop(0)
-        self.held.append((pal, name, then))
+        self.held.append([pal, name, then, reg])
         self.stats["held"] = self.stats.get("held", 0) + 1
 
     def check_orphans(self):
@@ -640,9 +640,10 @@ class World:
                 self.compare(self.decode(getattr(pal, acc), f"orphan-palette.{acc}", sid), reg.style(sid, nc),
                              "orphan-palette-accessor", sid)
 
-    def check_held(self, reg):
+    def check_held(self):
+        """every kept palette is compared with the registry of the configuration object it was obtained from"""
         nc = self.no_color
-        for pal, name, then in self.held:
+        for pal, name, then, reg in self.held:
             for sid in list(then):
                 then[sid].add(reg.style(sid, nc))
             if name is None:
@@ -898,6 +899,14 @@ def execute(trace, rng):
                     regG = copy.deepcopy(regM)
                     g_registered = list(w.used)
                     glabel = "M"
+                    old_reg = regG
+                else:
+                    old_reg = copy.deepcopy(regM)
+                # palettes kept by the caller belong to the configuration object they came from - the original, which
+                # stays global (and may get the defaults of further components through synced palettes) or is left alone
+                for ent in w.held:
+                    if ent[3] is regM:
+                        ent[3] = old_reg
                 M = M2
                 w.stats["deep_copies"] = w.stats.get("deep_copies", 0) + 1
             elif k == "orphan_palette":
@@ -940,7 +949,7 @@ def execute(trace, rng):
                 continue
             log.add("op", n, k, op.get("comp"))
             w.check_conf(M, regM, w.used, "M")
-            w.check_held(regM)
+            w.check_held()
             w.check_orphans()
             if glabel == "tainted":
                 continue
